@@ -19,7 +19,20 @@ RULE = ("translator: every operator / then / cond / fold_* / count_true / alldif
         "Python evaluator) under random variable assignments against the pointwise / mathematical meaning computed in Python from "
         "the operands' values; ill-typed / ill-shaped uses must raise.  A case is non-trivial when it is a distinct "
         "(form, operator, operand classes, shapes, operand trees) tuple; operands are drawn from literals, None, variables, "
-        "composite expressions and arrays of both kinds of every shape up to 3x3 (1-D 0..3, 2-D 0..3 x 0..3, so empty and 1xN included).")
+        "composite expressions and arrays of both kinds of every shape up to 3x3 (1-D 0..3, 2-D 0..3 x 0..3, so empty and 1xN included); "
+        "hardening: (histories) every case is run as: call, operands compared with their state before, the caller changes the "
+        "returned list / result.data / result.operands, operands compared again (no shared storage), same call on the same objects, "
+        "same call on fresh arrays of the same shape, related helper on the same arguments (four_neighbors <-> four_neighbor_indices, "
+        "conv2d and/or, fold_or/fold_and/count_true) — every later outcome must equal the model's (pure) outcome and is evaluated by the "
+        "search when it differs from the first; (one-shot iterables) helper arguments written as generator / map / zip / iter / reversed / "
+        "tuple / list at every nesting depth incl. top level, arrays built from tuples / generators / maps / rows, and plain containers "
+        "or one-shot iterables as operands of cond / then / operators (objects of an unrelated class: must behave like None); "
+        "(integers) run-time created integers outside the small-int cache as scalars, items, variable bounds, window sizes, > 256 "
+        "literal items and arrays of > 256 elements; (sizes) 5x7, 7x5, 4x5, 7x7, 2x7, 1x9, 9x1, 17x16, 1-D 21/25/300, same element count "
+        "with different shape, item lists of 17..257 distinct variables, conv2d windows equal to / larger than the array; (call forms) "
+        "keyword arguments for cond / then / methods / conv2d / four_neighbors / _elementwise, op strings created at run time, "
+        "(y, x) tuple with explicit x=None; aggregates are additionally evaluated under targeted assignments (all false, all true, "
+        "exactly one variable true / false, exactly one pair of integer variables equal).")
 TRUSTED = [
     "reading of the property: equality forms (==, !=) between a boolean-valued and an integer-valued operand are not required to raise "
     "(CPython falls back to identity comparison when both sides return NotImplemented); every other ill-typed use of an operator, then or cond "
@@ -35,6 +48,8 @@ ASSUMPTIONS = [
     "both operands builtin (True & False, 1 + 2) is plain Python and outside the model",
     "flatten_iterator's recursion depth (RecursionError for nestings ~1000 deep) and iterating a str are not modelled",
     "conv2d_sem is stated for window sizes >= 1; four_neighbors_sem for in-bounds cells",
+    "call histories are not part of the Coq model (its functions are pure): the harness requires every repeated call, and every call after the "
+    "caller changed a result it owns, to give the model's outcome for the same arguments, and the operands to be structurally unchanged",
 ]
 
 ERR = {1: "IndexError", 2: "KeyError", 3: "AssertionError", 4: "TypeError", 5: "ValueError",
@@ -1003,7 +1018,16 @@ def _case_id(case):
         if isinstance(v, Opaque):
             return "%s-of-%d" % (v.how, len(v.items))
         if isinstance(v, (list, tuple)):
-            return "[" + ",".join(d(x) for x in v) + "]"
+            parts = []
+            for x in v:                     # runs of equal descriptions are written once: BoolVar*30
+                t = d(x)
+                if parts and parts[-1][0] == t:
+                    parts[-1][1] += 1
+                else:
+                    parts.append([t, 1])
+            if len(v) <= 12:
+                return "[" + ",".join(d(x) for x in v) + "]"
+            return "[" + ",".join(t if n == 1 else "%s*%d" % (t, n) for (t, n) in parts) + "]"
         if is_array(v):
             return "%s%s" % (cls_name(v), "x".join(str(s) for s in v.shape))
         if isinstance(v, (bool, int)) or v is None:
@@ -1794,6 +1818,14 @@ def search(ctx):
         for (a, b) in spread(pairs, 8):
             out.append(env_of(("equal", a, b, n), [k % 4 == 0 for k in range(n)], [distinct[a] if k == b else distinct[k] for k in range(n)]))
         return out
+
+    def viol(case, what, detail, tag=""):
+        d = {"case": case_id(case), "request": model_request(case)}
+        if tag:
+            d["history"] = tag
+            what = what + " — on the " + tag.split(": ", 1)[1].split(",")[0]
+        d.update(detail)
+        ctx.violation(split(case)[0][0] + ":" + case_id(case) + ("@" + tag.split(":")[0] if tag else ""), what, d)
 
     for (case, tag, before, after) in changes:
         ctx.prop_case("prop-operands-unchanged", (before, tag))
